@@ -1,10 +1,10 @@
 SPECIFICATION Spec
 CONSTANTS
   Chains <- Singles
-  RowVals <- RowsMid
+  RowVals <- RowsSmall
   MaxRows = 3
   MaxEmpty = 1
   EofModes <- BoolBoth
   SSCarry = TRUE
-INVARIANTS ChunkingInvariant PrefixOK TypeOK
+INVARIANTS ChunkingInvariant PrefixOK SplitInvariant TypeOK
 CHECK_DEADLOCK FALSE
